@@ -220,6 +220,22 @@ func runAll(c *run.Ctx) {
 			c.Case("typed-empty", idx, func(k *run.K) { checkTree(k, model.Tree{Type: typ, CT: ct}) })
 		}
 	}
+	// curves of every length 1..140 (and around 256, 512, 1024) followed by further curves: every
+	// length a parser's reusable buffers can have
+	idx = 0
+	sizes := []int{254, 255, 256, 257, 258, 511, 512, 513, 1023, 1024, 1025}
+	for n := 1; n <= 140; n++ {
+		sizes = append(sizes, n)
+	}
+	for _, n := range sizes {
+		for _, ct := range model.CTypes {
+			for kind := 0; kind < 3; kind++ {
+				idx++
+				n, ct, kind := n, ct, kind
+				c.Case("sized", idx, func(k *run.K) { checkTree(k, model.SizedTree(kind, n, ct)) })
+			}
+		}
+	}
 	for i := 0; i < c.N(30000, 300000); i++ {
 		c.Case("tree", i, func(k *run.K) {
 			typ := model.Types[k.Rng.Intn(7)]
